@@ -164,17 +164,22 @@ def collector_job(comm, shape, nprocs, eta_i, S, steps, tfloat, out, kind="tok")
             out[rk].append(("slot", k, S, [], False, "%s: %s" % (type(ex).__name__, ex)))
             return
     d.reduce()
-    if rk == 0:
-        last = steps[-1] % S
-        # the line the driver prints for that slot carries the same eight quantities, in the documented column order
-        cols = [float(x) for x in d.getLine(last).split()]
-        want = [float(d.diagnostics[0, last]), float(d.l2PhiResult[last]), float(d.l2GridResult[last]), float(d.l1Result[last]),
-                float(d.nPartResult[last]), float(d.min_val[last]), float(d.max_val[last]), float(d.KE_val[last])]
-        line_ok = len(cols) == 8 and all(abs(a - b) <= 1e-9 * max(1.0, abs(b)) for a, b in zip(cols, want))
-        out[rk].append(("line", line_ok, cols, want))
-        out[rk].append(("reduce", {"l2phi": float(d.l2PhiResult[last]) ** 2, "l2": float(d.l2GridResult[last]) ** 2,
-                                   "l1": float(d.l1Result[last]), "npart": float(d.nPartResult[last]), "ke": float(d.KE_val[last]),
-                                   "mn": float(d.min_val[last]), "mx": float(d.max_val[last])}))
+    for again in (False, True):
+        if again:
+            d.reduce()              # nothing was collected in between: reducing again must report the same quantities
+        if rk != 0:
+            continue
+        if True:
+          last = steps[-1] % S
+          # the line the driver prints for that slot carries the same eight quantities, in the documented column order
+          cols = [float(x) for x in d.getLine(last).split()]
+          want = [float(d.diagnostics[0, last]), float(d.l2PhiResult[last]), float(d.l2GridResult[last]), float(d.l1Result[last]),
+                  float(d.nPartResult[last]), float(d.min_val[last]), float(d.max_val[last]), float(d.KE_val[last])]
+          line_ok = len(cols) == 8 and all(abs(a - b) <= 1e-9 * max(1.0, abs(b)) for a, b in zip(cols, want))
+          out[rk].append(("line", line_ok, cols, want))
+          out[rk].append(("reduce", {"l2phi": float(d.l2PhiResult[last]) ** 2, "l2": float(d.l2GridResult[last]) ** 2,
+                                     "l1": float(d.l1Result[last]), "npart": float(d.nPartResult[last]), "ke": float(d.KE_val[last]),
+                                     "mn": float(d.min_val[last]), "mx": float(d.max_val[last])}))
 
 
 def plotrank_job(comm, shape, nprocs, eta_i, out):
